@@ -596,12 +596,14 @@ def _sop(e):
                 facs(x.right)
             elif isinstance(x, ast.Name):
                 fs.append(x.id)
+            elif isinstance(x, ast.Attribute) and x.attr == "T" and isinstance(x.value, ast.Name):
+                fs.append(x.value.id + ".T")
             else:
                 fs.append(None)
         facs(t)
-        if None in fs or len(fs) != len(set(fs)):
+        if None in fs:
             return None
-        out.append(frozenset(fs))
+        out.append(tuple(sorted(fs)))
     return frozenset(out)
 
 
@@ -632,12 +634,44 @@ def rule_pol_kernel(chk, prog):
                         kn, dn = (e.id for e in st.targets[0].elts)
                         calls[kn] = tuple(pf.src(a) for a in st.value.args)
                         derivs[dn] = kn
-            if len(calls) >= 4:
-                cands.append((b, calls, derivs))
+            # blocks defined as an alias or a transpose of another block: kba = kab | kab.T | np.transpose(kab)
+            how = {}
+            changed = True
+            while changed:
+                changed = False
+                for st in b.body:
+                    if not (isinstance(st, ast.Assign) and len(st.targets) == 1 and isinstance(st.targets[0], ast.Name)):
+                        continue
+                    nm, v = st.targets[0].id, st.value
+                    if nm in calls:
+                        continue
+                    transposed = False
+                    while True:
+                        if isinstance(v, ast.Attribute) and v.attr == "T":
+                            v, transposed = v.value, not transposed
+                        elif isinstance(v, ast.Call) and pf.call_name(v) in ("np.transpose", "numpy.transpose") and len(v.args) == 1:
+                            v, transposed = v.args[0], not transposed
+                        elif isinstance(v, ast.Call) and isinstance(v.func, ast.Attribute) and v.func.attr in ("transpose", "copy") \
+                                and not v.args:
+                            transposed = (not transposed) if v.func.attr == "transpose" else transposed
+                            v = v.func.value
+                        else:
+                            break
+                    if isinstance(v, ast.Name) and v.id in calls:
+                        a0, a1 = calls[v.id][:2]
+                        calls[nm] = (a1, a0) if transposed else (a0, a1)
+                        how[nm] = "%s of %s" % ("transpose" if transposed else "alias", v.id)
+                        changed = True
+            if len(calls) >= 2:
+                cands.append((b, calls, derivs, how))
         if len(cands) != 1:
             raise core.AnalysisError("DFTKernel.%s: POL branch with four kernel blocks not found" % name)
-        b, calls, derivs = cands[0]
+        b, calls, derivs, how = cands[0]
         comb = None
+        for nm in list(calls):
+            if not nm.endswith(".T"):
+                calls[nm + ".T"] = (calls[nm][1], calls[nm][0])
+                how[nm + ".T"] = "transpose of %s" % nm
         for st in b.body:
             if isinstance(st, ast.Assign) and isinstance(st.targets[0], ast.Name):
                 s = _sop(st.value)
@@ -652,30 +686,38 @@ def rule_pol_kernel(chk, prog):
             if argtxt.endswith("[1]"):
                 return 1
             return None
-        canon = frozenset(frozenset((spin(calls[f][0]), spin(calls[f][1])) for f in t) for t in comb[1])
+        # a term is the sorted tuple (multiplicity kept) of the (row spin, column spin) keys of its factors,
+        # each key read off the argument order of the kernel evaluation that produces the factor
+        canon = frozenset(tuple(sorted((spin(calls[f][0]), spin(calls[f][1])) for f in t)) for t in comb[1])
         roots = {(calls[f][0].rsplit("[", 1)[0], calls[f][1].rsplit("[", 1)[0]) for t in comb[1] for f in t}
-        forms[name] = (canon, roots, comb, calls, derivs, b)
-    want = frozenset({frozenset({(0, 0), (1, 1)}), frozenset({(0, 1), (1, 0)})})
-    for name, (canon, roots, comb, calls, derivs, b) in forms.items():
+        forms[name] = (canon, roots, comb, calls, derivs, b, how)
+    want = frozenset({((0, 0), (1, 1)), ((0, 1), (1, 0))})
+    for name, (canon, roots, comb, calls, derivs, b, how) in forms.items():
         inst = "DFTKernel.%s: k = k_aa k_bb + k_ab k_ba" % name
         if canon == want and len(roots) == 1:
-            chk.ok("pol-kernel", inst)
+            chk.ok("pol-kernel", inst + ((" (%s)" % "; ".join("%s is the %s" % kv for kv in sorted(how.items()))) if how else ""))
         else:
+            used = sorted({f for t in comb[1] for f in t})
             chk.violation("pol-kernel", DKR, "DFTKernel." + name, pf.src(comb[0]), comb[0].lineno,
-                          "the polarised kernel is documented as k_aa*k_bb + k_ab*k_ba (sample spin, control spin); "
-                          "here the blocks combine as %s over operands %s"
-                          % (sorted(sorted(t) for t in canon), sorted(roots)), instance=inst)
+                          "the polarised kernel is k_aa*k_bb + k_ab*k_ba, each block k_st being kernel(X[s], X'[t]) "
+                          "(or the transpose of kernel(X'[t], X[s]) when both operands are the same set); here the "
+                          "factors are %s, so the terms are %s over operands %s"
+                          % ("; ".join("%s = kernel(%s, %s)%s" % (f, calls[f][0], calls[f][1],
+                                                                   (" [%s]" % how[f]) if f in how else "") for f in used),
+                             sorted(canon), sorted(roots)), instance=inst)
     # get_k and get_k_and_deriv must evaluate the blocks on the same operands
     a, d = forms["get_k"], forms["get_k_and_deriv"]
     inst = "DFTKernel: get_k and get_k_and_deriv evaluate the same four blocks"
-    if set(a[3].values()) == set(d[3].values()):
+    def used_blocks(form):
+        return {form[3][f] for t in form[2][1] for f in t}
+    if used_blocks(a) == used_blocks(d):
         chk.ok("pol-kernel", inst)
     else:
         chk.violation("pol-kernel", DKR, "DFTKernel.get_k_and_deriv", "kernel blocks", d[5].lineno,
-                      "get_k evaluates %s but get_k_and_deriv evaluates %s" % (sorted(a[3].values()), sorted(d[3].values())),
+                      "get_k evaluates %s but get_k_and_deriv evaluates %s" % (sorted(used_blocks(a)), sorted(used_blocks(d))),
                       instance=inst)
     # product rule for the input gradient
-    canon, roots, comb, calls, derivs, b = d
+    canon, roots, comb, calls, derivs, b, how = d
     dk_of = {v: k for k, v in derivs.items()}
     got = {}
     for st in pf.walk_no_nested(b):
@@ -703,7 +745,9 @@ def rule_pol_kernel(chk, prog):
                 if calls[f][0] == x:
                     if f not in dk_of:
                         raise core.AnalysisError("no derivative block for %s" % f)
-                    expect.add(frozenset({dk_of[f]} | (set(t) - {f})))
+                    rest = list(t)
+                    rest.remove(f)
+                    expect.add(tuple(sorted([dk_of[f]] + rest)))
         if set(s) == expect:
             chk.ok("pol-kernel", inst + " wrt %s" % x)
         else:
@@ -1269,6 +1313,173 @@ def _mentions_fixed(test, h, aliases):
     return False
 
 
+
+# ----------------------------------------------------------------------------
+# hidden writes to the caller's sample matrices
+# ----------------------------------------------------------------------------
+VIEW_CALLS = {"np.asarray", "numpy.asarray", "np.ascontiguousarray", "np.atleast_2d", "np.transpose", "np.squeeze",
+              "np.reshape", "np.ravel", "np.asfortranarray", "np.asanyarray"}
+VIEW_METHODS = {"reshape", "view", "transpose", "ravel", "squeeze", "swapaxes"}
+INPLACE_METHODS = {"fill", "sort", "resize", "itemset", "put", "partition", "setfield", "byteswap"}
+INPLACE_FUNCS = {"np.fill_diagonal": 0, "np.place": 0, "np.put": 0, "np.putmask": 0, "np.copyto": 0,
+                 "np.put_along_axis": 0}
+
+
+def _view_root(e, state):
+    """name in `state` whose storage expression e may share (basic slicing, .T, reshape, asarray ...), else None"""
+    while True:
+        if isinstance(e, ast.Name):
+            return e.id if e.id in state else None
+        if isinstance(e, ast.Attribute) and e.attr in ("T", "real", "imag", "flat"):
+            e = e.value
+        elif isinstance(e, ast.Subscript):
+            idx = e.slice.elts if isinstance(e.slice, ast.Tuple) else [e.slice]
+            basic = all(isinstance(i, ast.Slice) or pf.src(i) in NEWAXIS
+                        or (isinstance(i, ast.Constant) and (isinstance(i.value, int) or i.value is Ellipsis))
+                        for i in idx)
+            if not basic:
+                return None  # advanced indexing copies
+            e = e.value
+        elif isinstance(e, ast.Call) and pf.call_name(e) in VIEW_CALLS and e.args:
+            e = e.args[0]
+        elif isinstance(e, ast.Call) and isinstance(e.func, ast.Attribute) and e.func.attr in VIEW_METHODS:
+            e = e.func.value
+        elif isinstance(e, ast.IfExp):
+            return _view_root(e.body, state) or _view_root(e.orelse, state)
+        else:
+            return None
+
+
+def _array_like(fn, name):
+    if name in ("X", "Y"):
+        return True
+    for n in ast.walk(fn):
+        if isinstance(n, ast.Subscript) and isinstance(n.value, ast.Name) and n.value.id == name:
+            return True
+        if isinstance(n, ast.Attribute) and isinstance(n.value, ast.Name) and n.value.id == name \
+                and n.attr in ("shape", "T", "dot", "ndim", "size", "dtype"):
+            return True
+    return False
+
+
+def param_writes(fn):
+    """[(stmt-or-call node, parameter whose storage is written, how)] by a may-alias forward analysis on the CFG"""
+    params = [a.arg for a in fn.args.args + fn.args.kwonlyargs if a.arg not in ("self", "cls")]
+    params = [p for p in params if _array_like(fn, p)]
+    if not params:
+        return None
+    g = cfgm.CFG(fn)
+    init = {p: p for p in params}  # name -> parameter it may alias
+    state_in = {g.entry.id: dict(init)}
+    work = [g.entry.id]
+    out_state = {}
+
+    def transfer(n, st):
+        st = dict(st)
+        node = n.ast
+        if n.kind == "iter" and isinstance(node, (ast.For, ast.AsyncFor)):
+            for t in ast.walk(node.target):
+                if isinstance(t, ast.Name):
+                    st.pop(t.id, None)
+            return st
+        if n.kind != "stmt":
+            return st
+        if isinstance(node, ast.Assign):
+            for t in node.targets:
+                if isinstance(t, ast.Name):
+                    r = _view_root(node.value, st)
+                    if r is not None:
+                        st[t.id] = st[r]
+                    else:
+                        st.pop(t.id, None)
+                elif isinstance(t, (ast.Tuple, ast.List)):
+                    for x in ast.walk(t):
+                        if isinstance(x, ast.Name):
+                            st.pop(x.id, None)
+        return st
+
+    while work:
+        u = work.pop()
+        so = transfer(g.nodes[u], state_in[u])
+        out_state[u] = so
+        for v in g.succ[u]:
+            cur = state_in.get(v)
+            new = dict(cur) if cur is not None else {}
+            chg = cur is None
+            for k, val in so.items():
+                if k not in new:
+                    new[k] = val
+                    chg = True
+            if chg:
+                state_in[v] = new
+                work.append(v)
+    hits = []
+    for n in g.nodes:
+        if n.id not in state_in or n.kind != "stmt":
+            continue
+        st = state_in[n.id]
+        node = n.ast
+        if isinstance(node, ast.AugAssign):
+            r = _view_root(node.target, st)
+            if r is not None:
+                hits.append((node, st[r], "augmented assignment"))
+        elif isinstance(node, ast.Assign):
+            for t in node.targets:
+                for tt in (t.elts if isinstance(t, (ast.Tuple, ast.List)) else [t]):
+                    if isinstance(tt, ast.Subscript):
+                        r = _view_root(tt.value, st)
+                        if r is not None:
+                            hits.append((node, st[r], "element store"))
+        for c in ast.walk(node):
+            if isinstance(c, ast.Call):
+                cn = pf.call_name(c)
+                if cn in INPLACE_FUNCS and len(c.args) > INPLACE_FUNCS[cn]:
+                    r = _view_root(c.args[INPLACE_FUNCS[cn]], st)
+                    if r is not None:
+                        hits.append((c, st[r], cn))
+                elif isinstance(c.func, ast.Attribute) and c.func.attr in INPLACE_METHODS:
+                    r = _view_root(c.func.value, st)
+                    if r is not None:
+                        hits.append((c, st[r], "." + c.func.attr + "()"))
+                for kw in c.keywords:
+                    if kw.arg == "out":
+                        r = _view_root(kw.value, st)
+                        if r is not None:
+                            hits.append((c, st[r], "out="))
+    return hits
+
+
+def rule_param_write(chk, uni, prog):
+    nfun = 0
+    for mod in (uni.km, prog.module(DKR)):
+        fns = []
+        for cname, cls in mod.classes.items():
+            for mname, fn in pf.methods(cls).items():
+                fns.append(("%s.%s" % (cname, mname), fn))
+        for fname, fn in mod.functions.items():
+            fns.append((fname, fn))
+        for where, fn in fns:
+            hits = param_writes(fn)
+            if hits is None:
+                continue
+            nfun += 1
+            if not hits:
+                chk.ok("param-write", "%s: %s never writes into its array arguments" % (mod.rel.split("/")[-1], where))
+                continue
+            seen = set()
+            for node, param, how in hits:
+                key = (param, pf.src(node))
+                if key in seen:
+                    continue
+                seen.add(key)
+                chk.violation("param-write", mod.rel, where, pf.src(node)[:100], node.lineno,
+                              "%s (`%s`) writes into the storage of the argument `%s` on a path where it has not been "
+                              "rebound to a fresh array: the caller's sample matrix is modified, so kernel(X, X) "
+                              "transforms the same array twice, a second call returns different numbers, and stored "
+                              "control points change under the caller" % (how, pf.src(node)[:60], param),
+                              instance="%s: %s written through `%s`" % (where, param, pf.src(node)[:60]))
+    chk.count("functions with array parameters", nfun)
+
 # ----------------------------------------------------------------------------
 def analyse(chk):
     tree = chk.tree
@@ -1283,6 +1494,7 @@ def analyse(chk):
     chk.rule("attr-defined", "self attributes read by kernel classes are defined in the (repo + sklearn) MRO")
     chk.rule("fixed-excluded", "returned hyper-parameter gradients have no slot for fixed hyper-parameters")
     chk.rule("slot-offset", "gradient slot order and offsets agree with theta when some hyper-parameters are fixed")
+    chk.rule("param-write", "no kernel method writes into its X/Y (array) arguments or views of them")
     chk.rule("units-input", "E-deg: unit(d k/d X) == unit(k) / unit(X) for k_and_deriv, incl. composites with symbolic units")
     chk.rule("units-hyper", "E-deg: unit(d k/d log theta) == unit(k) for __call__(eval_gradient=True)")
     chk.guard(rule_siblings, uni, alias)
@@ -1291,6 +1503,8 @@ def analyse(chk):
     chk.guard(rule_attrs, uni, prog)
     chk.guard(rule_fixed, uni)
     chk.guard(rule_units, uni, prog)
+    chk.guard(rule_param_write, uni, prog)
+    chk.floor("param-write", 60, "methods/functions of kernels.py and dft_kernel.py taking array arguments")
     chk.floor("sibling-primitives", 12, "classes defining k_and_deriv / _get_k0_dk0_eval")
     chk.floor("sibling-override", 2, "PartialRBF, PartialARBF")
     chk.floor("pol-kernel", 7, "4 combinations + operand agreement + 2 product rules")
@@ -1446,6 +1660,17 @@ def rule_units(chk, uni, prog):
                 gdegs = [x.deg for x in vals]
         elif plain(kq) and plain(gq):
             gdegs = [gq.deg]
+        if gdegs is None and rule == "units-hyper" and isinstance(gq, deg.Unk) and plain(kq) \
+                and "differs between stores" in getattr(gq, "why", ""):
+            # stores of two different (known) units into one gradient array: every slot of a log-hyper-parameter
+            # gradient must carry the unit of k, so a heterogeneous array has at least one wrong slot
+            fn = s.hooks.method_of(o, meth)
+            chk.violation(rule, KR, "%s.%s" % (pf.enclosing_class(fn.fdef).name if fn else cname, meth),
+                          "slots of the returned gradient carry different units", fn.fdef.lineno if fn else 0,
+                          "%s: the slots of the returned hyper-parameter gradient are stored with different units, "
+                          "whereas every d k / d log(theta_i) must have the unit of k (%s)" % (where, fmt(kq)),
+                          instance=inst)
+            return
         if gdegs is None:
             if not res.mismatches:
                 chk.note(rule, where, "not comparable: value %s, gradient %s" % (fmt(kq), fmt(gq)))
@@ -1537,6 +1762,28 @@ def mutants(tree):
                expect="pol-kernel"),
         Mutant("kctrl block on wrong spin", DKR, "kab = self.kernel(self.X1ctrl[0], self.X1ctrl[1])\n            kba = self.kernel(self.X1ctrl[1], self.X1ctrl[0])\n            k = kaa",
                "kab = self.kernel(self.X1ctrl[0], self.X1ctrl[1])\n            kba = self.kernel(self.X1ctrl[0], self.X1ctrl[1])\n            k = kaa", expect="pol-kernel"),
+        Mutant("kctrl: k_ba taken as k_ab without transpose", DKR,
+               "            kba = self.kernel(self.X1ctrl[1], self.X1ctrl[0])\n            k = kaa * kbb + kab * kba\n        else:\n            k = self.kernel(self.X1ctrl, self.X1ctrl)",
+               "            kba = kab\n            k = kaa * kbb + kab * kba\n        else:\n            k = self.kernel(self.X1ctrl, self.X1ctrl)",
+               expect="pol-kernel"),
+        Mutant("reduce_npts: k_ab squared inline", DKR, "            S = saa * sbb + sab * sba", "            S = saa * sbb + sab * sab",
+               expect="pol-kernel"),
+        Mutant("get_k: k_ba as transpose of k_ab although operands differ", DKR,
+               "            kba = self.kernel(X1[1], self.X1ctrl[0])\n            k = kaa * kbb + kab * kba\n        else:\n            k = self.kernel(X1, self.X1ctrl)\n        if self.mode == \"SEP\":\n            k = k.T.reshape(self.Nctrl, nspin, Nsamp)\n        else:\n            k = k.T\n        return k\n",
+               "            kba = kab.T\n            k = kaa * kbb + kab * kba\n        else:\n            k = self.kernel(X1, self.X1ctrl)\n        if self.mode == \"SEP\":\n            k = k.T.reshape(self.Nctrl, nspin, Nsamp)\n        else:\n            k = k.T\n        return k\n",
+               expect="pol-kernel"),
+        # hidden writes
+        Mutant("_transform divides the caller's X in place", KR, "            X = X / self.std\n        return X.dot(self.matrix)",
+               "            X /= self.std\n        return X.dot(self.matrix)", expect="param-write"),
+        Mutant("RBF k_and_deriv centres Y in place", KR, "        k = self.__call__(X, Y)\n        dk = k[:, :, None] * (Y[None, :, :] - X[:, None, :])",
+               "        k = self.__call__(X, Y)\n        Yv = Y[None, :, :]\n        Yv -= X[:, None, :]\n        dk = k[:, :, None] * Yv",
+               expect="param-write"),
+        Mutant("poly scales X through an alias", KR, "        dot1 = (self.gamma * X).dot(Y.T)\n        dotn = 1\n        for n in range(1, self.order + 1):\n            if self.factorial:\n                dk += dotn",
+               "        Xs = X\n        Xs[:] = self.gamma * X\n        dot1 = Xs.dot(Y.T)\n        dotn = 1\n        for n in range(1, self.order + 1):\n            if self.factorial:\n                dk += dotn",
+               expect="param-write"),
+        Mutant("get_k zeroes small features of X0T in place", DKR, "        nspin, N0, Nsamp = X0T.shape\n        X1 = self.get_descriptors(X0T)\n        if self.mode == \"POL\":\n            if nspin == 1:\n                X1 = np.concatenate([X1, X1], axis=0)\n            elif nspin != 2:\n                raise ValueError\n            X1 = X1.reshape(2, Nsamp, self.N1)\n            kaa = self.kernel(X1[0], self.X1ctrl[0])",
+               "        nspin, N0, Nsamp = X0T.shape\n        X0T[X0T < 1e-12] = 0.0\n        X1 = self.get_descriptors(X0T)\n        if self.mode == \"POL\":\n            if nspin == 1:\n                X1 = np.concatenate([X1, X1], axis=0)\n            elif nspin != 2:\n                raise ValueError\n            X1 = X1.reshape(2, Nsamp, self.N1)\n            kaa = self.kernel(X1[0], self.X1ctrl[0])",
+               expect="param-write"),
         # lock
         Mutant("remove a _locked = False (Subset.diag)", KR,
                "        result = self._base_cls.diag(self, X[:, self.indexes])\n        self._locked = False\n",
